@@ -8,9 +8,12 @@ package redisemu
 // real build (VERIF_REPLAY=<json>), so that nothing is reported unreplayed.
 
 import (
+	"encoding/gob"
 	"encoding/json"
 	"fmt"
+	"io"
 	"os"
+	"path/filepath"
 	"strconv"
 	"time"
 )
@@ -210,4 +213,79 @@ func vIsDecimal(s string) bool {
 func vDecimalOf(s string) int64 {
 	n, _ := strconv.ParseInt(s, 10, 64)
 	return n
+}
+
+// ---------------------------------------------------------------------
+// file system for the persistence harness.  Under gosym these are
+// intercepted by the engine's file-system/gob model; natively real files
+// in a temporary directory are used, and the replay overlay routes the
+// package's os.Create / os.Rename / os.Remove / gob.NewEncoder through the
+// wrappers below so that "the process dies after n effects" can be replayed.
+
+var (
+	vFsDir      string
+	vFsEffectsN int
+	vFsCrashAt  = -1
+)
+
+func vFsReset() {
+	if vFsDir != "" {
+		os.RemoveAll(vFsDir)
+	}
+	vFsDir, _ = os.MkdirTemp("", "verif-fs")
+	vFsEffectsN, vFsCrashAt = 0, -1
+}
+
+func vFsPath(name string) string { return filepath.Join(vFsDir, name) }
+
+func vFsCrashAfter(n int) { vFsCrashAt, vFsEffectsN = n, 0 }
+func vFsEffects() int     { return vFsEffectsN }
+
+func vFsExists(name string) bool {
+	_, err := os.Stat(name)
+	return err == nil
+}
+
+func vFsEffect() bool {
+	i := vFsEffectsN
+	vFsEffectsN++
+	return vFsCrashAt < 0 || i < vFsCrashAt
+}
+
+func vOsCreate(name string) (*os.File, error) {
+	if vFsEffect() {
+		return os.Create(name)
+	}
+	return os.OpenFile(os.DevNull, os.O_WRONLY, 0)
+}
+
+func vOsRename(from, to string) error {
+	if _, err := os.Stat(from); err != nil {
+		return err
+	}
+	if vFsEffect() {
+		return os.Rename(from, to)
+	}
+	return nil
+}
+
+func vOsRemove(name string) error {
+	if _, err := os.Stat(name); err != nil {
+		return err
+	}
+	if vFsEffect() {
+		return os.Remove(name)
+	}
+	return nil
+}
+
+type vEncoder struct{ enc *gob.Encoder }
+
+func vGobNewEncoder(w io.Writer) *vEncoder { return &vEncoder{gob.NewEncoder(w)} }
+
+func (e *vEncoder) Encode(v any) error {
+	if vFsEffect() {
+		return e.enc.Encode(v)
+	}
+	return nil
 }
